@@ -13,8 +13,14 @@ little-endian compositions of byte accesses (so results do not depend on the bas
 EVERY access generates a bounds condition 0 <= off, off + width <= size: decided at once when concrete,
 otherwise returned as an obligation with its path condition.
 
-Opcodes handled: alloca load store getelementptr(single index) bitcast icmp br xor or and shl lshr ashr add
-sub mul zext sext trunc call ret select phi.  Anything else -> Unsupported (the caller reports ERROR).
+Addresses: a data allocation may carry a SYMBOLIC 64-bit base address (Buf.base, constrained only by what the
+creator states - no alignment assumption unless given).  `ptrtoint` yields base + offset, so alignment tests such
+as `(uintptr_t)p & 7` are terms over the base and the branches on them FORK paths (feasibility by the solver);
+`inttoptr` is accepted for <base of an allocation> + <address-independent term>.  Pointers into the same
+allocation may be compared; across allocations -> Unsupported.
+
+Opcodes handled: alloca load store getelementptr(single index) bitcast ptrtoint inttoptr icmp br xor or and shl lshr
+ashr add sub mul udiv urem sdiv srem zext sext trunc call ret select phi.  Anything else -> Unsupported (ERROR).
 """
 import atexit
 import os
@@ -85,6 +91,76 @@ def build_extension(c_path, workdir=None, name="speedups"):
     import importlib.util
     loader = importlib.machinery.ExtensionFileLoader(name, out)
     spec = importlib.util.spec_from_file_location(name, out, loader=loader)
+    mod = importlib.util.module_from_spec(spec)
+    loader.exec_module(mod)
+    return mod, " ".join(cmd)
+
+
+DRIVER_C = r'''
+/* replay driver: same translation unit as the CURRENT speedups.c (so the real, static websocket_mask with the real
+   PyArg_ParseTuple is called), plus a tiny read-only buffer type without bf_releasebuffer - "s#" accepts it - whose
+   memory sits at a chosen offset from a 64-byte aligned block.  Lets the replay put mask/data at any address
+   alignment, which bytes objects cannot do. */
+#include "%(c_path)s"
+#include <stdlib.h>
+#include <string.h>
+typedef struct { PyObject_HEAD char *ptr; Py_ssize_t len; void *block; } DrvView;
+static int drv_getbuffer(DrvView *self, Py_buffer *view, int flags)
+{ return PyBuffer_FillInfo(view, (PyObject *)self, self->ptr, self->len, 1, flags); }
+static void drv_dealloc(DrvView *self) { free(self->block); Py_TYPE(self)->tp_free((PyObject *)self); }
+static PyBufferProcs drv_as_buffer = { (getbufferproc)drv_getbuffer, NULL };
+static PyTypeObject DrvViewType = { PyVarObject_HEAD_INIT(NULL, 0) .tp_name = "llkdrv.View",
+    .tp_basicsize = sizeof(DrvView), .tp_flags = Py_TPFLAGS_DEFAULT, .tp_as_buffer = &drv_as_buffer,
+    .tp_dealloc = (destructor)drv_dealloc };
+static PyObject *drv_view(const char *src, Py_ssize_t n, int off)
+{
+    void *blk = NULL;
+    if (posix_memalign(&blk, 64, (size_t)n + 256) != 0) return PyErr_NoMemory();
+    DrvView *o = PyObject_New(DrvView, &DrvViewType);
+    if (!o) { free(blk); return NULL; }
+    o->block = blk; o->ptr = (char *)blk + 64 + off; o->len = n;
+    memset(blk, 0xA5, (size_t)n + 256);
+    memcpy(o->ptr, src, (size_t)n);
+    return (PyObject *)o;
+}
+static PyObject *drv_call(PyObject *self, PyObject *args)
+{
+    const char *m, *d; Py_ssize_t ml, dl; int moff, doff;
+    if (!PyArg_ParseTuple(args, "y#y#ii", &m, &ml, &d, &dl, &moff, &doff)) return NULL;
+    PyObject *mv = drv_view(m, ml, moff & 63), *dv = drv_view(d, dl, doff & 63);
+    if (!mv || !dv) { Py_XDECREF(mv); Py_XDECREF(dv); return NULL; }
+    PyObject *t = PyTuple_Pack(2, mv, dv);
+    Py_DECREF(mv); Py_DECREF(dv);
+    if (!t) return NULL;
+    PyObject *r = websocket_mask(NULL, t);
+    Py_DECREF(t);
+    return r;
+}
+static PyMethodDef drv_methods[] = { {"call", drv_call, METH_VARARGS, ""}, {NULL, NULL, 0, NULL} };
+static struct PyModuleDef drv_module = { PyModuleDef_HEAD_INIT, "llkdrv", NULL, -1, drv_methods };
+PyMODINIT_FUNC PyInit_llkdrv(void)
+{
+    if (PyType_Ready(&DrvViewType) < 0) return NULL;
+    return PyModule_Create(&drv_module);
+}
+'''
+
+
+def build_driver(c_path, workdir=None):
+    """compile DRIVER_C (which #includes the current C file) and import it; returns (module, command)"""
+    d = workdir or tempdir()
+    src = os.path.join(d, "llkdrv.c")
+    with open(src, "w") as f:
+        f.write(DRIVER_C % dict(c_path=c_path))
+    out = os.path.join(d, "llkdrv.so")
+    cmd = [find_clang(), "-shared", "-fPIC", "-O2", "-I" + python_include(), src, "-o", out]
+    p = subprocess.run(cmd, capture_output=True, text=True, timeout=120)
+    if p.returncode != 0:
+        raise Unsupported("clang (driver) failed: " + p.stderr[-800:])
+    import importlib.machinery
+    import importlib.util
+    loader = importlib.machinery.ExtensionFileLoader("llkdrv", out)
+    spec = importlib.util.spec_from_file_location("llkdrv", out, loader=loader)
     mod = importlib.util.module_from_spec(spec)
     loader.exec_module(mod)
     return mod, " ".join(cmd)
@@ -163,13 +239,14 @@ class Cell:
 
 class Buf:
     """byte-addressed allocation"""
-    def __init__(self, name, size, bytes_=None, array=None, readonly=False):
+    def __init__(self, name, size, bytes_=None, array=None, readonly=False, base=None):
         self.name, self.size, self.bytes, self.array, self.readonly = name, size, bytes_, array, readonly
+        self.base = base          # symbolic 64-bit address of byte 0 (None: address never observable)
         self.kind = "buf"
 
     def copy(self):
         return Buf(self.name, self.size, None if self.bytes is None else list(self.bytes), self.array,
-                   self.readonly)
+                   self.readonly, self.base)
 
 
 class Opaque:
@@ -295,6 +372,30 @@ class Interp:
                 st.mem.setdefault("obj:" + name, Opaque(name))
                 st.mem[key] = c
         return Ptr(key)
+
+    def addr_of(self, st, p):
+        """integer value of a pointer: symbolic base address of its allocation + offset"""
+        if not isinstance(p, Ptr):
+            raise Unsupported("ptrtoint of a non-pointer")
+        if p.is_null():
+            return z3.BitVecVal(0, 64)
+        obj = st.mem.get(p.alloc)
+        if obj is None or obj.kind != "buf" or obj.base is None:
+            raise Unsupported("ptrtoint of a pointer to %r (no address model)" % (obj,))
+        return _c(obj.base + p.off)
+
+    def ptr_of(self, st, v):
+        """pointer for an integer: the integer must be <base of an allocation> + <term without base addresses>"""
+        v = _c(v)
+        if z3.is_bv_value(v) and v.as_long() == 0:
+            return NULL
+        bases = [(aid, o.base) for aid, o in st.mem.items() if o.kind == "buf" and o.base is not None]
+        names = {str(b) for _, b in bases}
+        for aid, b in bases:
+            off = _c(v - b)
+            if not (_free_names(off) & names):
+                return Ptr(aid, off)
+        raise Unsupported("inttoptr of a value that is not an allocation base plus an address-independent offset: %s" % v)
 
     def bounds(self, st, buf, off, nbytes, what):
         size = buf.size if z3.is_expr(buf.size) else z3.BitVecVal(buf.size, 64)
@@ -438,6 +539,40 @@ class Interp:
                 raise Unsupported(ins)
             R[dst] = self.operand(st, mm.group(1), mm.group(2))
             return [st]
+        if op == "ptrtoint":
+            mm = re.match(r"^ptrtoint (.+?\*) ([^ ]+) to (i\d+)$", ins)
+            if not mm:
+                raise Unsupported(ins)
+            v = self.addr_of(st, self.operand(st, mm.group(1), mm.group(2)))
+            w = width_of(mm.group(3))
+            R[dst] = v if w == 64 else _c(z3.Extract(w - 1, 0, v)) if w < 64 else _c(z3.ZeroExt(w - 64, v))
+            return [st]
+        if op == "inttoptr":
+            mm = re.match(r"^inttoptr (i\d+) ([^ ]+) to (.+?\*)$", ins)
+            if not mm:
+                raise Unsupported(ins)
+            v = self.operand(st, mm.group(1), mm.group(2))
+            if v.size() != 64:
+                raise Unsupported("inttoptr of i%d" % v.size())
+            R[dst] = self.ptr_of(st, v)
+            return [st]
+        if op in ("udiv", "urem", "sdiv", "srem"):
+            mm = re.match(r"^\w+ (?:exact )?(i\d+) ([^ ,]+), ([^ ,]+)$", ins)
+            if not mm:
+                raise Unsupported(ins)
+            a = self.operand(st, mm.group(1), mm.group(2))
+            b = self.operand(st, mm.group(1), mm.group(3))
+            nz = _c(b != 0)
+            if not z3.is_true(nz):
+                st.oob.append(("division by zero in `%s`" % ins, list(st.pc), nz))
+            if op in ("sdiv", "srem"):
+                w = a.size()
+                no = _c(z3.Not(z3.And(a == z3.BitVecVal(1 << (w - 1), w), b == z3.BitVecVal(-1, w))))
+                if not z3.is_true(no):
+                    st.oob.append(("signed division overflow in `%s`" % ins, list(st.pc), no))
+            R[dst] = _c({"udiv": lambda: z3.UDiv(a, b), "urem": lambda: z3.URem(a, b), "sdiv": lambda: a / b,
+                         "srem": lambda: z3.SRem(a, b)}[op]())
+            return [st]
         if op in ("xor", "or", "and", "shl", "lshr", "ashr", "add", "sub", "mul"):
             mm = re.match(r"^\w+ (?:nsw |nuw |exact )*(i\d+) ([^ ,]+), ([^ ,]+)$", ins)
             if not mm:
@@ -481,10 +616,22 @@ class Interp:
             a = self.operand(st, ty, mm.group(3))
             b = self.operand(st, ty, mm.group(4))
             if isinstance(a, Ptr) or isinstance(b, Ptr):
-                if not (isinstance(a, Ptr) and isinstance(b, Ptr)) or pred not in ("eq", "ne"):
+                if not (isinstance(a, Ptr) and isinstance(b, Ptr)):
                     raise Unsupported("pointer comparison " + ins)
                 if not (a.is_null() or b.is_null()):
-                    raise Unsupported("comparison of two non-null pointers")
+                    if a.alloc != b.alloc:
+                        raise Unsupported("comparison of pointers into different allocations")
+                    # same object: compare the offsets (the object does not wrap around the address space)
+                    x, y = a.off, b.off
+                    cmpf = {"eq": lambda: x == y, "ne": lambda: x != y, "ult": lambda: x < y, "ule": lambda: x <= y,
+                            "ugt": lambda: x > y, "uge": lambda: x >= y, "slt": lambda: x < y, "sle": lambda: x <= y,
+                            "sgt": lambda: x > y, "sge": lambda: x >= y}
+                    if pred not in cmpf:
+                        raise Unsupported("icmp " + pred)
+                    R[dst] = _c(z3.If(cmpf[pred](), z3.BitVecVal(1, 1), z3.BitVecVal(0, 1)))
+                    return [st]
+                if pred not in ("eq", "ne"):
+                    raise Unsupported("ordered comparison with null")
                 same = a.is_null() and b.is_null()
                 r = same if pred == "eq" else not same
                 R[dst] = z3.BitVecVal(1 if r else 0, 1)
@@ -499,7 +646,22 @@ class Interp:
         if op == "select":
             mm = re.match(r"^select i1 ([^ ,]+), (i\d+) ([^ ,]+), i\d+ ([^ ,]+)$", ins)
             if not mm:
-                raise Unsupported(ins)
+                pm = re.match(r"^select i1 ([^ ,]+), (.+?\*) ([^ ,]+), .+?\* ([^ ,]+)$", ins)
+                if not pm:
+                    raise Unsupported(ins)
+                c = _c(self.operand(st, "i1", pm.group(1)) == 1)
+                outs = []
+                for cond, tok in ((c, pm.group(3)), (_c(z3.Not(c)), pm.group(4))):
+                    if z3.is_false(cond):
+                        continue
+                    s2 = st if z3.is_true(cond) else st.fork()
+                    if not z3.is_true(cond):
+                        s2.pc.append(cond)
+                        if not self.feasible(s2.pc):
+                            continue
+                    s2.regs[dst] = self.operand(s2, pm.group(2), tok)
+                    outs.append(s2)
+                return outs
             c = self.operand(st, "i1", mm.group(1))
             R[dst] = _c(z3.If(c == 1, self.operand(st, mm.group(2), mm.group(3)),
                               self.operand(st, mm.group(2), mm.group(4))))
@@ -592,6 +754,19 @@ class Interp:
                         work.append((o, 0))
                 break
         return leaves
+
+
+def _free_names(e):
+    out, todo, seen = set(), [e], set()
+    while todo:
+        x = todo.pop()
+        if x.get_id() in seen:
+            continue
+        seen.add(x.get_id())
+        if z3.is_const(x) and x.decl().kind() == z3.Z3_OP_UNINTERPRETED:
+            out.add(str(x))
+        todo.extend(x.children())
+    return out
 
 
 def _split_args(s):
